@@ -14,4 +14,5 @@ import IweModel.Props.C12
 import IweModel.Props.C15
 import IweModel.Props.C17
 import IweModel.Props.C18
+import IweModel.Props.C19
 import IweModel.Props.C20
